@@ -69,14 +69,16 @@ def popped(model: Model):
 
 
 def _pop_flag_semantics(model: Model, rr: RuleResult):
-    """Abstractly evaluate _pop_flag over {None, set} x {None, set}: flag > file > default."""
+    """Abstractly evaluate _pop_flag over file value x flag value in {unset(None), set-but-falsy, set-and-truthy}:
+    the result must be the flag when set, else the file value when set, else the default."""
     fi = model.func("config", "_pop_flag")
     if len(fi.params) != 2:
         raise AnalysisError("_pop_flag: expected (config, name)")
 
     def classify(e):
-        s = norm(e)
         if isinstance(e, ast.Call) and callee_tail(e) == "pop" and len(e.args) == 2 and norm(e.args[1]) == "None":
+            return "C"
+        if isinstance(e, ast.Call) and callee_tail(e) == "get" and len(e.args) >= 1 and (len(e.args) == 1 or norm(e.args[1]) == "None") and norm(e.func.value) == fi.params[0]:
             return "C"
         if isinstance(e, ast.Call) and norm(e.func) == "getattr" and norm(e.args[0]) == "FLAGS":
             return "F"
@@ -87,8 +89,27 @@ def _pop_flag_semantics(model: Model, rr: RuleResult):
     class Unknown(Exception):
         pass
 
+    def is_none(v, world):
+        if v in ("C", "F"):
+            return world[v] == "none"
+        if v == "D":
+            return False
+        if isinstance(v, tuple) and v[0] == "const":
+            return v[1] is None
+        raise Unknown(str(v))
+
+    def truthy(v, world):
+        if v in ("C", "F"):
+            return world[v] == "truthy"
+        if v == "D":
+            return True  # worst case for the property: a truthy default can mask a falsy file value
+        if isinstance(v, tuple) and v[0] == "bool":
+            return v[1]
+        if isinstance(v, tuple) and v[0] == "const":
+            return bool(v[1])
+        raise Unknown(str(v))
+
     def ev(e, env, world):
-        # value domain: symbols 'C','F','D' ; truthiness of "x is None" known from world
         if isinstance(e, ast.Name):
             if e.id in env:
                 return env[e.id]
@@ -98,33 +119,27 @@ def _pop_flag_semantics(model: Model, rr: RuleResult):
             return k
         if isinstance(e, ast.Constant):
             return ("const", e.value)
-        if isinstance(e, ast.Compare) and len(e.ops) == 1 and isinstance(e.ops[0], (ast.Is, ast.IsNot)) and norm(
-            e.comparators[0]
-        ) == "None":
-            v = ev(e.left, env, world)
-            if v in ("C", "F"):
-                r = world[v]
-            elif v == "D":
-                r = False
-            else:
-                raise Unknown(norm(e))
+        if isinstance(e, ast.Compare) and len(e.ops) == 1 and isinstance(e.ops[0], (ast.Is, ast.IsNot)) and norm(e.comparators[0]) == "None":
+            r = is_none(ev(e.left, env, world), world)
             return ("bool", r if isinstance(e.ops[0], ast.Is) else not r)
         if isinstance(e, ast.BoolOp):
-            vals = [ev(v, env, world) for v in e.values]
-            if all(isinstance(v, tuple) and v[0] == "bool" for v in vals):
-                bs = [v[1] for v in vals]
-                return ("bool", all(bs) if isinstance(e.op, ast.And) else any(bs))
-            raise Unknown(norm(e))
+            vals = e.values
+            cur = ev(vals[0], env, world)
+            for nxt in vals[1:]:
+                t = truthy(cur, world)
+                if isinstance(e.op, ast.Or):
+                    if t:
+                        return cur
+                    cur = ev(nxt, env, world)
+                else:
+                    if not t:
+                        return cur
+                    cur = ev(nxt, env, world)
+            return cur
         if isinstance(e, ast.UnaryOp) and isinstance(e.op, ast.Not):
-            v = ev(e.operand, env, world)
-            if isinstance(v, tuple) and v[0] == "bool":
-                return ("bool", not v[1])
-            raise Unknown(norm(e))
+            return ("bool", not truthy(ev(e.operand, env, world), world))
         if isinstance(e, ast.IfExp):
-            t = ev(e.test, env, world)
-            if isinstance(t, tuple) and t[0] == "bool":
-                return ev(e.body if t[1] else e.orelse, env, world)
-            raise Unknown(norm(e))
+            return ev(e.body if truthy(ev(e.test, env, world), world) else e.orelse, env, world)
         raise Unknown(norm(e))
 
     def run(stmts, env, world):
@@ -132,10 +147,7 @@ def _pop_flag_semantics(model: Model, rr: RuleResult):
             if isinstance(st, ast.Assign) and len(st.targets) == 1 and isinstance(st.targets[0], ast.Name):
                 env[st.targets[0].id] = ev(st.value, env, world)
             elif isinstance(st, ast.If):
-                t = ev(st.test, env, world)
-                if not (isinstance(t, tuple) and t[0] == "bool"):
-                    raise Unknown(norm(st.test))
-                r = run(st.body if t[1] else st.orelse, env, world)
+                r = run(st.body if truthy(ev(st.test, env, world), world) else st.orelse, env, world)
                 if r is not None:
                     return r
             elif isinstance(st, ast.Return):
@@ -146,19 +158,20 @@ def _pop_flag_semantics(model: Model, rr: RuleResult):
                 raise Unknown(norm(st))
         return None
 
-    expect = {(True, True): "D", (True, False): "F", (False, True): "C", (False, False): "F"}
-    for (c_none, f_none), want in expect.items():
-        try:
-            got = run(fi.body, {}, {"C": c_none, "F": f_none})
-        except Unknown as u:
-            raise AnalysisError(f"_pop_flag: cannot evaluate {u} abstractly (idiom outside the enumerated ones)")
-        label = f"_pop_flag(file {'unset' if c_none else 'set'}, flag {'unset' if f_none else 'set'}) -> " \
-                f"{ {'C':'file value','F':'flag value','D':'default'}.get(got, got) }"
-        if got != want:
-            rr.bad(fi, fi.node, f"precedence flag > file > default broken: {label}, expected "
-                   f"{ {'C':'file value','F':'flag value','D':'default'}[want] }", construct=label)
-        else:
-            rr.ok(label)
+    names = {"C": "file value", "F": "flag value", "D": "default"}
+    for c in ("none", "falsy", "truthy"):
+        for f in ("none", "falsy", "truthy"):
+            want = "F" if f != "none" else ("C" if c != "none" else "D")
+            try:
+                got = run(fi.body, {}, {"C": c, "F": f})
+            except Unknown as u:
+                raise AnalysisError(f"_pop_flag: cannot evaluate {u} abstractly (idiom outside the enumerated ones)")
+            label = f"_pop_flag(file {c}, flag {f}) -> {names.get(got, got)}"
+            if got != want:
+                rr.bad(fi, fi.node, f"precedence flag > file > default broken: {label}, expected {names[want]} (a value that is set but falsy - 0, false, '' - "
+                       f"must not be replaced)", construct=label)
+            else:
+                rr.ok(label)
 
 
 def r10a(model: Model, rr: RuleResult):
@@ -354,6 +367,11 @@ def r10b(model: Model, rr: RuleResult):
                 writers.append((fi, c))
             if norm(c.func) == "csv.reader":
                 readers.append((fi, c))
+    if len(readers) == 1 and not writers:
+        wfi = mod.func("GlyphMapping.csv_line")
+        rr.bad(wfi, wfi.node, "glyphmap rows are no longer written with csv.writer while they are parsed with csv.reader: hand-rolled quoting does not follow "
+               "the reader's dialect (embedded quotes, leading quote characters)", construct="csv_line: no csv.writer, reader is csv.reader")
+        return
     if len(writers) != 1 or len(readers) != 1:
         raise AnalysisError(f"glyphmap: expected one csv.writer and one csv.reader, found {len(writers)}/{len(readers)}")
     (wfi, w), (rfi, r) = writers[0], readers[0]
